@@ -85,7 +85,7 @@ def gen_nfkc_host(rng, latin1=False):
 NASTY = ['%0D%0A', '%0d%0aX-Injected:%201', '%20', ' ', '%00', 'é', '€', '\U0001f600', '\x7f', '\x80', '%',
          '%zz', '+', '"', '<', '>', '`', '{', '}', '|', '\\', '^', '~', '[', ']', ';', '=', '&', '@', ':', ' ',
          '\x85', '\xa0', '%25', '%2F', '%3f', '%23', '\udc80']
-SEG = ['a', 'b', 'index.html', 'x y', '.', '..', '', 'café', '%41', 'a%2fb', 'HTTP/1.1', 'Host:%20evil']
+SEG = ['%2e', '%2e%2e', '.%2e', '%2e.', '%2E%2E', '%2E', 'files', 'a', 'b', 'index.html', 'x y', '.', '..', '', 'café', '%41', 'a%2fb', 'HTTP/1.1', 'Host:%20evil']
 
 
 def gen_component(rng, allow):
@@ -282,6 +282,39 @@ def component_class_ok(s):
 
 
 # ------------------------------------------------------------------ WebSession over fakenet
+class Watchdog(KeyboardInterrupt):
+    """raised by SIGALRM inside whatever is running: a real run that spins inside ONE event-loop callback cannot be cut by
+    any timeout or step bound of the loop"""
+
+
+class watchdog:
+    """hard wall-clock bound around one real run (main thread only); `fired` tells whether it went off"""
+
+    def __init__(self, seconds):
+        self.seconds = seconds
+        self.fired = False
+
+    def _handler(self, signum, frame):
+        self.fired = True
+        raise Watchdog()
+
+    def __enter__(self):
+        import signal
+        import threading
+        self.active = threading.current_thread() is threading.main_thread()
+        if self.active:
+            self._old = signal.signal(signal.SIGALRM, self._handler)
+            signal.setitimer(signal.ITIMER_REAL, self.seconds)
+        return self
+
+    def __exit__(self, et, ev, tb):
+        import signal
+        if self.active:
+            signal.setitimer(signal.ITIMER_REAL, 0)
+            signal.signal(signal.SIGALRM, self._old)
+        return et is not None and issubclass(et, Watchdog)      # the flag carries the news
+
+
 class Script:
     """What the fake servers answer: the k-th request (over all connections) gets replies[k].
     reply = {'status': int, 'location': bytes|None, 'cookies': [bytes], 'mode': 'resp'|'close'|'garbage'}"""
@@ -474,6 +507,7 @@ def run_session(url, replies, max_redirects=20, use_jar=True, factory_pairs=(('U
     import io
 
     loads = []
+    holder = {}
 
     class LogTracker(RedirectTracker):
         def load(self, response):
@@ -482,6 +516,7 @@ def run_session(url, replies, max_redirects=20, use_jar=True, factory_pairs=(('U
 
     async def go():
         script = Script(replies)
+        holder['script'] = script
         net = fakenet.FakeNet()
         net.default = lambda: ScriptServer(script)
         resolver = NamedResolver()
@@ -596,7 +631,16 @@ def run_session(url, replies, max_redirects=20, use_jar=True, factory_pairs=(('U
                     'answers': list(jar.answers) if jar is not None else [],
                     'mreplies': mreplies, 'bases': bases, 'locs': locs, 'init_pairs': init_pairs, 'init_url': init_url,
                     'conns': len(net.conns)}
-    return compat.run(go())
+    with watchdog(25) as wd:
+        res = compat.run(go())
+    if wd.fired:
+        # the visit span inside one callback: report what was on the wire so far
+        from wpull.url import URLInfo
+        script = holder.get('script')
+        hops = [(ip, port, head, bd) for ip, port, head, bd in (script.log if script else [])]
+        return {'hops': hops, 'outcome': 'spinning', 'last': 0, 'consumed': [], 'answers': [], 'mreplies': [], 'bases': [], 'locs': {},
+                'init_pairs': [], 'init_url': URLInfo.parse(url), 'conns': 0}
+    return res
 
 
 def consumed_bytes(script):
@@ -742,6 +786,7 @@ def run_crawl(url, replies, tries, max_redirects, login=None, timeout=20, robots
         cap = (tries + 4) if tries >= 1 else (len(replies) + len(robots['replies'] if robots else []) + 6)
         cap = cap * (1 + len(more_urls))
     capped = [False]
+    spinning = [False]
     if req_cap is None:
         # no terminating crawl of one URL sends more: (tries+1) visits x (2*(max_redirects+1) requests, twice for robots.txt)
         req_cap = (max(tries, 1) + 2) * 4 * (max_redirects + 2) + len(replies) + 20
@@ -880,7 +925,9 @@ def run_crawl(url, replies, tries, max_redirects, login=None, timeout=20, robots
                             raise asyncio.TimeoutError()
                         return None
             try:
-                exit_code = loop.run_until_complete(go())
+                with watchdog(timeout + 15) as wd:
+                    exit_code = loop.run_until_complete(go())
+                spinning[0] = wd.fired
             except asyncio.TimeoutError:
                 hung = True
             except CheckOutCap:
@@ -932,7 +979,7 @@ def run_crawl(url, replies, tries, max_redirects, login=None, timeout=20, robots
     connects = [(name_of(ip), port, head) for ip, port, head in script.connects]
     return {'visits': visits, 'events': list(events), 'hops': list(script.log), 'named_hops': named, 'tunnels': list(script.tunnels),
             'connects': connects, 'consumed': consumed_bytes(script), 'mreplies': mreplies, 'exit': exit_code,
-            'hung': hung, 'capped': capped[0], 'checkouts': len([e for e in events if e[0] == 'out']),
+            'hung': hung or spinning[0], 'spinning': spinning[0], 'capped': capped[0], 'checkouts': len([e for e in events if e[0] == 'out']),
             'rhops': list(script.rlog), 'rmreplies': rmreplies, 'robots': robots, 'retry': retry, 'attempts': attempts[0],
             'rejects': rejects, 'answers': [], 'init_pairs': [], 'init_url': URLInfo.parse(url)}
 
